@@ -8,6 +8,9 @@ Proof side: Properties/C17.v.  Correspondence (std build, de_strict_order on and
  (3) corrupted schema prefixes: every truncation point inside the prefix (sampled when long),
      single-byte corruptions inside the prefix, the definitions written in another order, one
      definition duplicated, one definition duplicated with a different body: implementation == model;
+ (5) call histories: one process per ordered pair (T, U) of a few types - always including catalogue
+     items that share their declaration with a different item (crate::items::v1::Msg / v2::Msg) -
+     write T, read T's bytes as U, write U, read U as U, read T as T: every step == the stateless model;
  (4) the container codec: `to_vec` / `from_slice` of BorshSchemaContainer on the C09 container corpus
      (sample) and on every for_type container == model's codec at `ty_container`.
 Property oracle (implementation only):
@@ -48,9 +51,20 @@ def pick_types(cat, tier, rng):
     for tid, t in ws:
         if t[0] == 'prim' and t[1] in want and (tid, t) not in chosen:
             chosen.append((tid, t))
+    chosen += [x for x in same_declaration(ws) if x not in chosen]
     rest = [x for x in ws if x not in chosen and len(sexp(x[1])) < 200]
     rng.shuffle(rest)
     return (chosen + rest)[:60]
+
+
+def item_name(t):
+    return t[1][1] if t[0] in ('prod', 'sum') and isinstance(t[1], tuple) and t[1][0] in ('struct', 'enum') else None
+
+
+def same_declaration(ws):
+    """the catalogue items that share their declaration with a DIFFERENT item"""
+    names = Counter(item_name(t) for _, t in ws if item_name(t))
+    return [(tid, t) for tid, t in ws if names.get(item_name(t), 0) > 1]
 
 
 def run(tier, seed, t0):
@@ -194,6 +208,43 @@ def run(tier, seed, t0):
                 failures.append({'class': 'corrupt-accepted', 'key': mh[:80],
                                  'what': 'a schema prefix that does not stand for the reader\'s schema was accepted (%s): type %s input %s -> %s [%s]'
                                          % (kind, rust(t), mh, a, cfg), 'type': sexp(t), 'input': mh, 'result': a})
+        # (5) call history: the helpers are functions of their arguments, whatever was written or read
+        # before on the same thread.  One harness process per ordered pair (T, U): write T, read T's
+        # bytes as U, write U, read U's bytes as U, read T's bytes as T - every answer must be the
+        # (stateless) model's.  Items sharing a declaration with another item are always among them.
+        wmap = {}
+        for cid, tid, t, repr_, h, vb in written:
+            wmap.setdefault(tid, (t, repr_, h))
+        hs = [tid for tid, _ in same_declaration(types) if tid in wmap]
+        hs += [tid for tid in list(wmap)[:: max(1, len(wmap) // (4 if tier == 'quick' else 12))] if tid not in hs]
+        nhist = 0
+        for ta in hs:
+            for ub in hs:
+                if ta == ub:
+                    continue
+                (t, rt, ht), (u, ru, hu) = wmap[ta], wmap[ub]
+                seq = [('encws', ta, t, rt), ('decws', ub, u, ht), ('encws', ub, u, ru), ('decws', ub, u, hu), ('decws', ta, t, ht)]
+                li = [case_line('h%d' % n, op, i, sexp(x), a) for n, (op, i, x, a) in enumerate(seq)]
+                lm = [case_line('h%d' % n, op, i, sexp(x), a) if op == 'encws' else case_line('h%d' % n, op, i, sexp(x), strict, a)
+                      for n, (op, i, x, a) in enumerate(seq)]
+                hi = run_cases(exe, li, shards=1)
+                hm = run_cases(driver, lm, shards=1)
+                nhist += 1
+                for n, (op, i, x, a) in enumerate(seq):
+                    stats['evaluations'] += 1
+                    ra, rb = hi.get('h%d' % n), hm.get('h%d' % n)
+                    if op == 'encws' and ra is not None and '\t' in ra:
+                        ra = ra.split('\t', 1)[1]
+                    classes['hist:' + error_class(ra)] += 1
+                    if ra is None or ra != rb:
+                        disagreements.append({'what': 'call history (write %s, read as %s, write %s, read, read): step %d %s::<%s> gives %s, the model (and a fresh process) %s [%s]'
+                                                      % (rust(t), rust(u), rust(u), n, op, rust(x), ra, rb, cfg),
+                                              'replay_cmd': "printf '%s\\n' | $VERIF_ROOT/.cache/target-%s/debug/harness" % ('\\n'.join(li).replace('\t', '\\t'), cfg)})
+                    if n == 1 and ra is not None and ra.startswith('ok') and cont.get(ta) != cont.get(ub):
+                        failures.append({'class': 'foreign-accepted', 'key': 'hist %s>%s' % (sexp(t), sexp(u)),
+                                         'what': 'after writing a %s on the same thread, its bytes were accepted when read as %s although the schemas differ: %s [%s]'
+                                                 % (rust(t), rust(u), ra, cfg), 'written': sexp(t), 'read': sexp(u), 'bytes': ht, 'result': ra})
+        stats['histories'] = nhist
         # (4) the container codec
         corpus = [(cid, c) for cid, c in gen.gen_structured(seed, tier) if SO.fits_codec(c)]
         if tier == 'quick':
